@@ -245,7 +245,11 @@ func runC02(r *ev.Run, thorough bool) {
 			l.States[key] = struct{}{}
 			l.Transitions++
 			l.Traces++
-			if viol := c02Wire(t, w); viol != nil {
+			viol := c02Wire(t, w)
+			if viol == nil {
+				viol = c02Wire(t, append(append([]byte{}, w...), trailing512...)) // followed by 512 further bytes
+			}
+			if viol != nil {
 				viol.Detail = desc + ": " + viol.Detail
 				r.Violate(viol)
 				return !r.TooMany()
